@@ -56,6 +56,10 @@ class C16(Prop):
 
         s = sim.source
         ncalls = 1 + s.weighted((5, 1), "ncalls")
+        odd_kwargs = {"timeout": 99, "function": 1, "loop": 2} if s.chance(1, 3, "odd-kwargs") else {}
+        # the second call may be made from a second event loop (asyncio.run twice) through the same wrapper object
+        second_loop = ncalls == 2 and profile == "timed" and s.chance(1, 3, "second-loop")
+        pre_cancelled = profile == "timed" and s.chance(1, 8, "pre-cancelled")
         specs = []
         for ci in range(ncalls):
             d_steps = (0, 128, 256, 384, 1)[s.draw(5, "d")]
@@ -101,7 +105,8 @@ class C16(Prop):
                 t_steps, stacked = specs[0]["T"], specs[0]["stacked"]
             specs.append({"d": d_steps, "outcome": outcome, "T": t_steps, "e": e_steps, "t0": t0_steps,
                           "c": c_steps, "stacked": int(stacked)})
-        sim.program = {"calls": specs, "inject_at_iteration": sim.inject_choice if profile == "sweep" else 0}
+        sim.program = {"calls": specs, "inject_at_iteration": sim.inject_choice if profile == "sweep" else 0,
+                       "second_call_on_second_event_loop": int(second_loop)}
         jitter = sim.jitter_steps * GRID
 
         calls = []
@@ -110,11 +115,11 @@ class C16(Prop):
             rec = {"started": [], "cancel_seen": [], "ended": None, "result": Obj(("r", ci)),
                    "exc": Injected(("e", ci)), "base": InjectedBase(("b", ci)), "own": OwnTimeout(("t", ci))}
 
-            async def fn(arg, *, kw=None):
+            async def fn(arg, *, kw=None, **extra):
                 rec["started"].append(sim.now)
                 sim.event("fn-start", ci)
-                if arg != ("a", ci) or kw != ("k", ci):
-                    sim.fail("arguments", f"function called with {arg!r}, kw={kw!r}")
+                if arg != ("a", ci) or kw != ("k", ci) or extra != odd_kwargs:
+                    sim.fail("arguments", f"function called with {arg!r}, kw={kw!r}, extra keywords {extra!r} (expected {odd_kwargs!r})")
                 out = spec["outcome"]
                 d = spec["d"] * GRID
                 try:
@@ -160,10 +165,16 @@ class C16(Prop):
                     out["kind"], out["obj"], out["at"] = "cancelled-before-call", None, sim.now
                     sim.event("caller-outcome", ci, out["kind"])
                     return
+            if pre_cancelled and spec["c"] is None:
+                asyncio.current_task().cancel()
+                try:
+                    await asyncio.sleep(0)
+                except asyncio.CancelledError:
+                    sim.stats["caller_swallowed_cancel_before_call"] += 1
             out["called"] = sim.now
             sim.event("call", ci)
             try:
-                r = await wrapped(("a", ci), kw=("k", ci))
+                r = await wrapped(("a", ci), kw=("k", ci), **odd_kwargs)
             except asyncio.CancelledError as exc:
                 out["kind"], out["obj"] = "cancelled", exc
             except TimeoutError as exc:
@@ -177,10 +188,10 @@ class C16(Prop):
 
         fns = [make_fn(ci, spec) for ci, spec in enumerate(specs)]
 
-        async def dispatch(arg, *, kw=None):
+        async def dispatch(arg, *, kw=None, **extra):
             # one function object for all calls: overlapping calls with equal timeout share ONE wrapper object
             ci = arg[1] if isinstance(arg, tuple) and len(arg) == 2 and isinstance(arg[1], int) and arg[1] < len(fns) else 0
-            return await fns[ci][0](arg, kw=kw)
+            return await fns[ci][0](arg, kw=kw, **extra)
 
         dispatch.__name__ = "fn"
         wrappers = {}
@@ -197,9 +208,13 @@ class C16(Prop):
                 sim.stats["overlapping_calls_share_wrapper"] += 1
             return wrappers[key]
 
+        phase = {"n": 1}
+
         async def main():
             tasks = []
             for ci, spec in enumerate(specs):
+                if second_loop and (ci == 1) != (phase["n"] == 2):
+                    continue
                 fn, rec = fns[ci]
                 wrapped = wrapper_for(spec)
                 out = {"kind": None, "cancel_ret": None, "cancel_at": None}
@@ -230,6 +245,10 @@ class C16(Prop):
             await asyncio.wait(tasks)
 
         outcome = sim.run(main)
+        if second_loop and outcome == "ok" and sim.violation is None and not sim.harness_errors:
+            sim.next_loop()
+            phase["n"] = 2
+            outcome = sim.run(main)
         if sim.violation is not None or sim.harness_errors:
             return
         if outcome == "deadlock":
